@@ -331,6 +331,26 @@ func (g *Gen) primTests(pk string) []TestSpec {
 			t.Arg = D{K: "t", T: g.aTime()}
 		}
 		out = append(out, t)
+		if r.P(1, 6) && t.Name != "booleq" && t.Name != "uuid" && t.Name != "email" && t.Name != "upper" && t.Name != "digit" && t.Name != "special" {
+			// the same kind of test AGAIN, right after, with another argument (Contains("a").Contains("b"),
+			// Min(5).Min(2), GT(1).GT(7)): two declared constraints, both hold on success
+			t2 := t
+			t2.ID = g.id()
+			t2.Args = append([]D(nil), t.Args...)
+			switch t.Name {
+			case "min", "max", "len":
+				t2.N = int64(r.Range(0, 6))
+			case "prefix", "suffix", "contains":
+				t2.S = rng.Pick(r, []string{"a", "ab", "b", "é", "1", "x", "!"})
+			case "oneof":
+				t2.Args = append(t2.Args, g.primD(pk, true))
+			case "cmp":
+				t2.Arg = g.primD(pk, true)
+			case "tcmp":
+				t2.Arg = D{K: "t", T: g.aTime()}
+			}
+			out = append(out, t2)
+		}
 	}
 	return out
 }
